@@ -519,6 +519,11 @@ func (t *TopicEventHandler) addToEventLog(evt PeerEvent) {
 
 // pullFromEventLog assumes a lock has been taken to protect the event log
 func (t *TopicEventHandler) pullFromEventLog() (PeerEvent, bool) {
+	if k, ok := verifPickPeer(t.evtLog); ok {
+		evt := PeerEvent{Peer: k, Type: t.evtLog[k]}
+		delete(t.evtLog, k)
+		return evt, true
+	}
 	for k, v := range t.evtLog {
 		evt := PeerEvent{Peer: k, Type: v}
 		delete(t.evtLog, k)
